@@ -324,6 +324,98 @@ class DeepLiftShap(Contract):
     def exc_post(self, a, cfg, ctx):
         return [('hooks-removed-on-raise', ctx.ghost.get('dls_hooks', False) is False)]
 
+    def replay_injected(self, cfg, raised, site):
+        """the environment failure of a refuted exceptional path, re-created around the real function: a small
+        real network in which the k-th hook registration / forward pass / backward node / reference-generator call
+        raises an exception of the class the path raised; reports DeepLIFT hooks left on the model afterwards"""
+        import builtins
+        import warnings
+        import torch
+        from tangermeme.deep_lift_shap import deep_lift_shap
+        exc = getattr(builtins, str(raised), RuntimeError)
+        if not (isinstance(exc, type) and issubclass(exc, BaseException)):
+            exc = RuntimeError
+        out = []
+        for k in (1, 2, 3, 4, 5, 6):
+            tick = {'n': 0}
+
+            def boom():
+                tick['n'] += 1
+                if tick['n'] == k:
+                    raise exc('injected')
+
+            class RegAct(torch.nn.ReLU):
+                def register_forward_hook(self, *a, **kw):
+                    boom()
+                    return super().register_forward_hook(*a, **kw)
+
+                def register_forward_pre_hook(self, *a, **kw):
+                    boom()
+                    return super().register_forward_pre_hook(*a, **kw)
+
+                def register_full_backward_hook(self, *a, **kw):
+                    boom()
+                    return super().register_full_backward_hook(*a, **kw)
+
+            class FwdBomb(torch.nn.Module):
+                def forward(self, x):
+                    boom()
+                    return x
+
+            class BwdFn(torch.autograd.Function):
+                @staticmethod
+                def forward(ctx_, x):
+                    return x.clone()
+
+                @staticmethod
+                def backward(ctx_, g):
+                    boom()
+                    return g
+
+            class BwdBomb(torch.nn.Module):
+                def forward(self, x):
+                    return BwdFn.apply(x)
+
+            act = RegAct if site == 'register-hooks' else torch.nn.ReLU
+            mid = FwdBomb() if site == 'model-forward' else (BwdBomb() if site in ('backward', 'autograd.grad') else torch.nn.Identity())
+            torch.manual_seed(3)
+            model = torch.nn.Sequential(torch.nn.Conv1d(4, 3, 3), act(), mid, torch.nn.Conv1d(3, 2, 1), act(), torch.nn.Flatten(), torch.nn.Linear(12, 1)).double()
+            X = torch.zeros(3, 4, 8, dtype=torch.float64)
+            for e in range(3):
+                for l in range(8):
+                    X[e, (e + l * (e + 1)) % 4, l] = 1
+            kwargs = dict(n_shuffles=2, batch_size=4, device='cpu', random_state=0)
+            if site == 'reference-generator':
+                def refs(Xb, n, random_state=None, **kw):
+                    boom()
+                    return torch.zeros(Xb.shape[0], n, *Xb.shape[1:], dtype=Xb.dtype)
+                kwargs['references'] = refs
+            elif cfg.get('refs') == 'tensor':
+                kwargs['references'] = torch.zeros(3, 2, 4, 8, dtype=torch.float64)
+            if site not in ('register-hooks', 'model-forward', 'backward', 'autograd.grad', 'reference-generator'):
+                return []
+
+            def hooks(m):
+                names = []
+                for nm, mod in m.named_modules():
+                    for dn in ('_forward_hooks', '_forward_pre_hooks', '_backward_hooks'):
+                        for h in getattr(mod, dn, {}).values():
+                            names.append('%s.%s:%s' % (nm, dn, getattr(h, '__name__', '?')))
+                return names
+            raised_ = None
+            with warnings.catch_warnings():
+                warnings.simplefilter('ignore')
+                try:
+                    deep_lift_shap(model, X, **kwargs)
+                except BaseException as e:   # noqa: the injected class may be a BaseException
+                    raised_ = type(e).__name__
+            left = hooks(model)
+            if raised_ is not None and left:
+                out.append('deep_lift_shap raised %s (injected at the %d-th %s call) and left %d hook(s) on the model: %s' % (
+                    raised_, k, site, len(left), ', '.join(left[:4])))
+                break
+        return out
+
     # -------------------------------------------------------------- loop invariants
     def loops(self):
         def cfg_of(fr):
